@@ -27,7 +27,7 @@ ASSUMPTIONS = [
 ]
 TIERS = {
     "quick": {"shards": 16, "cases": 960, "timeout": 300},
-    "thorough": {"shards": 16, "cases": 24000, "timeout": 3000},
+    "thorough": {"shards": 16, "cases": 40000, "timeout": 3000},
 }
 FLOORS = {
     "quick": {"counts": {"vertex_pairs_compared": 30000, "steps": 3000, "shape_steps": 600}, "keys": 60},
